@@ -272,19 +272,43 @@ class Dotted(Sub):
     name = 'c09.dotted'
     rule = ('dotted names are names: every non-empty subset of {va, va.b, va.b.c, vb.va, va.price} registered with distinct values '
             '(va also as a dict / a list holding a "price" / "b" entry): each registered name reads exactly its own value, every '
-            'unregistered one of the five - and va.nosuch, nosuch.va - is #NAME?, whatever its prefix or suffix holds; '
+            'unregistered one of the five - and va.nosuch, nosuch.va - is #NAME?, whatever its prefix or suffix holds; 7 dotted names with a '
+            'part that alone is shaped like a cell reference (rate.q1, q1.rate, a.b1.c ...) are names too: #NAME? unset, the value set; '
             'non-trivial = subset where a name and its prefix are both involved')
     min_cases = 30
     min_nontrivial = 20
     NAMES = ['va', 'va.b', 'va.b.c', 'vb.va', 'va.price']
 
+    CELLISH = ['rate.q1', 'q1.rate', 'a.b1.c', 'x.A1', 'tax.fy2024', 'AB12.total', 'r1.c1']
+
     def cases(self, tier, unit):
         for mask in range(1, 32):
             for base in ('num', 'dict', 'list'):
                 yield [mask, base]
+        for i in range(len(self.CELLISH)):
+            yield ['cellish', i]
 
     def check(self, env, case):
         mask, base = case
+        if mask == 'cellish':
+            # a dotted name is one name also when one of its parts, taken alone, is shaped like a cell reference
+            name = self.CELLISH[base]
+            env.nt()
+            p = env.new_parser()
+            cells = []
+            p.on('callCellValue', lambda cell, setter: (cells.append(cell.label), setter(-1)))
+            env.evals += 3
+            o = env.out(p.parse(name))
+            if o != ['e', '#NAME?']:
+                return fail('the unregistered dotted name %r evaluates to %r, expected #NAME?' % (name, o), ['e', '#NAME?'], o)
+            p.set_variable(name, 41)
+            for f, want in ((name, 41), (name + '+1', 42), ('SUM(%s,1)' % name, 42)):
+                o = env.out(p.parse(f))
+                if o != ['v', want]:
+                    return fail('with the variable %r set to 41, %r evaluates to %r, expected %r' % (name, f, o, want), ['v', want], o)
+            if cells:
+                return fail('the dotted name %r raised cell events %r' % (name, cells), [], cells)
+            return None
         reg = [n for i, n in enumerate(self.NAMES) if mask >> i & 1]
         vals = dict((n, 100 + i) for i, n in enumerate(self.NAMES))
         if base == 'dict':
